@@ -1,6 +1,7 @@
 SPECIFICATION Spec
 CONSTANTS
   N = 8
+  LONG = 0
   PASS_PRODUCT = FALSE
 INVARIANTS Increasing PassBound Cover OnlyPlain Emit
 PROPERTIES Terminates
